@@ -63,19 +63,23 @@ Theorem tie_float_formats :
 Proof. split; reflexivity. Qed.
 
 (* ---------- the lexer's character classes, for every byte value ---------- *)
-(* lexer.c's predicates (its own and the <ctype.h> ones it calls) were evaluated by the C compiler on all 256 byte values;
-   each model predicate holds on exactly the same bytes *)
+(* The translator asks the recognisers of lexer.c, for each of the 256 byte values, whether they accept it in the position a
+   class governs (white space token; digit after #B / #Q / #H; radix letter after #; sign, exponent letter and digit of a
+   decimal number; first digit of a block header; first and later characters of character data; content of a quoted string;
+   content of an expression) -- independent of how lexer.c names or structures its helpers.  Each model predicate holds on
+   exactly those bytes. *)
 Definition bytes256 : list N := map N.of_nat (seq 0 256).
 Definition same_class (p:N -> bool) (members:list N) : bool := forallb (fun c => Bool.eqb (p c) (existsb (N.eqb c) members)) bytes256.
 Theorem tie_char_classes :
   same_class LexModel.isws Generated.gen_cc_isws = true /\ same_class LexModel.isbdigit Generated.gen_cc_isbdigit = true /\
-  same_class LexModel.isqdigit Generated.gen_cc_isqdigit = true /\ same_class LexModel.isplusmn Generated.gen_cc_isplusmn = true /\
+  same_class LexModel.isqdigit Generated.gen_cc_isqdigit = true /\ same_class LexModel.isxdigit Generated.gen_cc_isxdigit = true /\
   same_class LexModel.isH Generated.gen_cc_isH = true /\ same_class LexModel.isB Generated.gen_cc_isB = true /\
   same_class LexModel.isQ Generated.gen_cc_isQ = true /\ same_class LexModel.isE Generated.gen_cc_isE = true /\
-  same_class LexModel.isascii7 Generated.gen_cc_isascii7 = true /\ same_class LexModel.isexpr Generated.gen_cc_isexpr = true /\
+  same_class LexModel.isplusmn Generated.gen_cc_isplusmn = true /\ same_class LexModel.isdigit Generated.gen_cc_isdigit = true /\
   same_class (fun c => LexModel.isdigit c && negb (LexModel.ischr 48%N c)) Generated.gen_cc_isnzdigit = true /\
-  same_class LexModel.isdigit Generated.gen_cc_isdigit = true /\ same_class LexModel.isalpha Generated.gen_cc_isalpha = true /\
-  same_class LexModel.isalnum Generated.gen_cc_isalnum = true /\ same_class LexModel.isxdigit Generated.gen_cc_isxdigit = true.
+  same_class LexModel.isalpha Generated.gen_cc_isalpha = true /\ same_class LexModel.ismnem Generated.gen_cc_ismnem = true /\
+  same_class (fun c => LexModel.isascii7 c && negb (LexModel.ischr 39%N c)) Generated.gen_cc_isascii7 = true /\
+  same_class LexModel.isexpr Generated.gen_cc_isexpr = true.
 Proof. vm_compute. repeat split. Qed.
 (* what the finite statement means *)
 Lemma same_class_spec p members : same_class p members = true -> forall c, (c < 256)%N -> p c = existsb (N.eqb c) members.
